@@ -28,7 +28,7 @@ Section CLocal.
   Proof.
     intros Hd HA. destruct (site_ok_dims CF d Dl Dr A Hd HA) as (E1 & E2 & E3).
     unfold frob, cn2. rewrite nr_site_mx, nc_site_mx, E1, E2, E3. rewrite (sumn_flatten CF d Dl).
-    apply sumn_ext. intros s Hs. destruct HA as [_ HA']. destruct (HA' s Hs) as (_ & Hr & Hc). rewrite Hr, Hc.
+    apply sumn_ext. intros s Hs. destruct HA as [_ HA']. destruct (HA' s Hs) as (_ & Hr & Hc). unfold frob. rewrite Hr, Hc.
     apply sumn_ext. intros a Ha. apply sumn_ext. intros b Hb.
     rewrite (get_site_mx CF d Dl Dr A s a b Hd (conj E3 HA') Hs Ha Hb). reflexivity.
   Qed.
@@ -59,13 +59,28 @@ Section CLocal.
     apply (sumn_delta_r CF Da k (fun l => cj (get G i k) *! get G i l) Hk).
   Qed.
 
+  (* || u diag(s) ||_F^2 = sum s^2  for u with orthonormal columns *)
+  Lemma frob_scalecols (s : list F) (u : mx) : nc u = length s -> mulmx (adjmx u) u = idmx (length s) ->
+    frob (scalecols F u s) (scalecols F u s) = emb (sqs s).
+  Proof.
+    intros Hc Huu. unfold frob. rewrite nr_scalecols, nc_scalecols, Hc. rewrite <- (sumn_emb_sq F).
+    rewrite sumn_exch. apply sumn_ext. intros a Ha.
+    transitivity (sumn (nr u) (fun i => emb (fmul F (nth a s (f0 F)) (nth a s (f0 F))) *! (cj (get u i a) *! get u i a))).
+    { apply sumn_ext. intros i Hi. unfold scalecols. rewrite !get_tab by lia. rewrite kconj_mul, (conj_cof F), <- (cof_mul F). ring. }
+    rewrite sumn_scal_l.
+    assert (E : get (mulmx (adjmx u) u) a a = get (idmx (length s)) a a) by (rewrite Huu; reflexivity).
+    rewrite get_mulmx in E by (rewrite ?nr_adjmx; lia). rewrite get_idmx in E by lia. rewrite Nat.eqb_refl in E.
+    transitivity (emb (fmul F (nth a s (f0 F)) (nth a s (f0 F))) *! k1 CF); [|ring]. f_equal. rewrite <- E.
+    rewrite nc_adjmx. apply sumn_ext. intros i Hi. rewrite get_adjmx by lia. reflexivity.
+  Qed.
+
   Lemma cof_zero_inj (c : F) : emb c = cO -> c = f0 F.
   Proof. intros H. apply (cof_inj F c (f0 F)). exact H. Qed.
 
   Lemma nonzero_of_norm (M : mx) (c : F) : frob M M = emb c -> c <> f0 F -> is_zeromx M = false.
   Proof.
     intros E Hc. destruct (is_zeromx M) eqn:Ez; [exfalso|reflexivity]. apply Hc. apply cof_zero_inj. rewrite <- E.
-    unfold frob. apply sumn_zero. intros i Hi. apply sumn_zero. intros j Hj.
+    unfold frob. apply (sumn_zero CF). intros i Hi. apply (sumn_zero CF). intros j Hj.
     rewrite (is_zeromx_spec F M Ez i j Hi Hj). ring.
   Qed.
 
@@ -134,6 +149,8 @@ Section CLocal.
       frob (srows s v) (srows s v) = emb (fmul F c (fsub F (f1 F) (svd_eps M q0 q1))) /\
       (tol = f0 F -> mulmx u (srows s v) = M) /\
       mulmx (adjmx u) M = srows s v /\
+      mulmx M (adjmx v) = scalecols F u s /\
+      frob (scalecols F u s) (scalecols F u s) = emb (fmul F c (fsub F (f1 F) (svd_eps M q0 q1))) /\
       s = map (fun i => nth i (block_svd_spectrum F dsvd M q0 q1) (f0 F)) (retained pick (block_svd_spectrum F dsvd M q0 q1) tol).
   Proof.
     intros Hv Hn Hc [Hcalls Hpick].
@@ -142,7 +159,7 @@ Section CLocal.
     destruct (block_svd_spec_gen F dsvd pick M q0 q1 tol Hv Hnz Htol0 Htol1 Hcalls Hpick)
       as (Hnn & Hne & [[[u s] v] q] & E & Hs & Hq & Hwu & Hwv & Hnru & Hncu & Hnrv & Hncv & Hlq & Hmin & Huu & Hvv & Hpos & Hspu & Hspv & Hex & _).
     destruct (block_svd_ext F dsvd pick M q0 q1 tol Hv Hnz Hcalls) as (Hnorm & Hort).
-    specialize (Hort u s v q E).
+    destruct (Hort u s v q E) as [Hort1 Hort2]. clear Hort.
     set (S := block_svd_spectrum F dsvd M q0 q1) in *.
     destruct (retained_spec F pick S tol Hnn Hne Htol0 Htol1 Hpick) as (RS1 & RS2 & RS3 & RS4 & _).
     set (K := retained pick S tol) in *.
@@ -152,20 +169,24 @@ Section CLocal.
       intros Hin. assert (Hss : StronglySorted lt (a :: l)).
       { apply Sorted_StronglySorted; [intros x y z; lia|constructor; assumption]. }
       inversion Hss as [|? ? _ Hall]; subst. rewrite Forall_forall in Hall. specialize (Hall a Hin). lia. }
-    exists u, s, v, q. rewrite <- Hlq.
+    exists u, s, v, q. rewrite Hlq.
     split; [exact E|]. split; [exact Hwu|]. split; [exact Hwv|]. split; [exact Hnru|]. split; [exact Hncu|].
     split; [exact Hnrv|]. split; [exact Hncv|]. split; [reflexivity|].
-    split. { rewrite Hlq. destruct q; [congruence|simpl; lia]. }
-    split; [exact Hmin|]. split; [exact Huu|]. split; [exact Hvv|]. rewrite Hlq. split; [exact Hspu|]. split; [exact Hspv|].
+    split. { rewrite <- Hlq. destruct q; [congruence|simpl; lia]. }
+    split; [exact Hmin|]. split; [exact Huu|]. split; [exact Hvv|]. split; [exact Hspu|]. split; [exact Hspv|].
     split; [apply disc_weight_nonneg|]. split; [exact RS4|].
-    split.
-    - rewrite (frob_srows F s v Hnrv Hvv). f_equal. rewrite Hs. rewrite sqs_map_nth.
+    assert (Hsqs : sqs s = fmul F c (fsub F (f1 F) (svd_eps M q0 q1))).
+    { rewrite Hs. rewrite sqs_map_nth.
       unfold svd_eps. fold S. fold K.
       assert (H1 := kept_disc_sum F S K HKnd RS2).
       assert (H2 := disc_weight_mul F S K ltac:(rewrite <- Ec; exact Hcn)).
-      rewrite Ec. rewrite <- H1 at 1. rewrite <- H2. ring.
-    - split; [|split; [exact Hort|exact Hs]].
-      intros Ht. rewrite <- (scalecols_srows F u v s) by lia. apply Hex. exact Ht.
+      assert (Hk : fsum (map (sqv F S) K) = fsub F (sqsum S) (fmul F (disc_weight S K) (sqsum S))).
+      { rewrite H2. rewrite <- H1. ring. }
+      rewrite Ec, Hk. ring. }
+    split; [rewrite (frob_srows F s v Hnrv Hvv); f_equal; exact Hsqs|].
+    split. { intros Ht. rewrite <- (scalecols_srows F u v s) by lia. apply Hex. exact Ht. }
+    split; [exact Hort1|]. split; [exact Hort2|].
+    split; [rewrite (frob_scalecols s u Hncu Huu); f_equal; exact Hsqs|exact Hs].
   Qed.
 
   Lemma local_left_svd_spec : local_spec (stepLs dsvd pick tol qd) okL epsL.
@@ -181,10 +202,10 @@ Section CLocal.
     assert (Hnc : nc (site_mx cur) = length qa) by (rewrite nc_site_mx; congruence).
     assert (Hfr : frob (site_mx cur) (site_mx cur) = emb c) by (rewrite (frob_site_mx d _ _ cur Hd HA); exact Hcn).
     destruct (svd_step_facts (site_mx cur) (qflat qd qb) qa c Hv Hfr Hc Hok)
-      as (u & s & v & q & E & Hwu & Hwv & Hnru & Hncu & Hnrv & Hncv & Hls & Hq1 & Hmin & Huu & Hvv & Hspu & Hspv & He0 & He1 & HfG & Hex & Hort & _).
+      as (u & s & v & q & E & Hwu & Hwv & Hnru & Hncu & Hnrv & Hncv & Hls & Hq1 & Hmin & Huu & Hvv & Hspu & Hspv & He0 & He1 & HfG & Hex & Hort & _ & _ & _).
     rewrite Hnr in Hnru. rewrite Hnc in Hncv. rewrite Hnr, Hnc in Hmin.
     exists (mx_site d (length qb) u), (srows s v), q.
-    split. { unfold stepLs, local_left_svd. rewrite E, nc_srows, Hncv, F1, Nat.eqb_refl, E3, E1. reflexivity. }
+    split. { unfold stepLs, local_left_svd. rewrite E, Hncv, F1, Nat.eqb_refl, E3, E1. reflexivity. }
     split; [apply wf_srows|]. split; [rewrite nr_srows; exact Hnrv|]. split; [rewrite nc_srows; exact Hncv|].
     split; [exact Hq1|]. split; [lia|]. split; [lia|].
     split; [apply srows_qsp; exact Hspv|].
@@ -194,7 +215,6 @@ Section CLocal.
     split; [exact He0|]. split; [exact He1|]. split; [exact HfG|].
     split.
     - intros Ht s0 Hs0. eapply (slab_mul CF d (length qb) (length qa) cur u (srows s v)); eauto.
-      rewrite nc_srows. exact Hncv.
     - intros k l Hk Hl.
       assert (Eg : get (mulmx (adjmx u) (site_mx cur)) k l = get (srows s v) k l) by (rewrite Hort; reflexivity).
       rewrite <- Eg. rewrite get_mulmx by (rewrite ?nr_adjmx; lia). rewrite nc_adjmx, Hnru.
